@@ -127,6 +127,19 @@ class GhostDB(object):
         self.writes = []          # log of (table, kind, txn id) for typestate
         self.fresh_ids = 0
 
+    def havoc(self, names):
+        """Replace the named tables (and 'aggregates') by unconstrained ones
+        (loop frames, interference)."""
+        tag = self.I.ex.fresh_name('hv')
+        for n in names:
+            if n == 'aggregates':
+                self.usage = z3.Const(tag + '.usage', self.usage.sort())
+                self.held = z3.Const(tag + '.held', self.held.sort())
+                self.total_held = z3.Const(tag + '.total_held',
+                                           self.total_held.sort())
+                continue
+            self.tables[n] = Table(self.tables[n].sa, tag)
+
     # ------------------------------------------------------------ snapshots
     def snapshot(self):
         s = object.__new__(GhostDB)
@@ -179,7 +192,12 @@ class GhostDB(object):
                 z3.And(z3.Select(t.exists, a), z3.Select(t.exists, b),
                        z3.Select(u, a) == z3.Select(u, b)), a == b),
                 patterns=[z3.MultiPattern(z3.Select(u, a), z3.Select(u, b))]))
-        # aggregates: 0 <= held <= usage ; held <= total_held
+        out.extend(self.aggregate_invariants())
+        return out
+
+    def aggregate_invariants(self):
+        """A-sum consequences: 0 <= held <= usage ; held <= total_held."""
+        out = []
         h = z3.Const('h!agg', sort_of(HELD_KEY))
         hs = sort_of(HELD_KEY)
         pk = sort_of(PAIR).mk(hs.accessor(0, 1)(h), hs.accessor(0, 2)(h))
